@@ -324,6 +324,7 @@ func genCaseC10(t *rapid.T) *c10Case {
 	d, vars := GenDoc(t, s, p, false)
 	base := &Case{Schema: s, Graph: g, Doc: d, Vars: vars, Layout: GenLayout(t), Echo: p.Args, ListSeed: rapid.IntRange(0, 1<<20).Draw(t, "listSeed")}
 	base.Assign, base.AnyInstalled = GenAssign(t, g, strategy)
+	base.Warm = GenWarm(t, s, p)
 	base.Op = d.Ops[0].Name
 	if p.Abstract {
 		for _, td := range s.Types {
